@@ -14,7 +14,7 @@ from ..model_cloud import ModelCloud, ModelSmartHome, creds_for
 ID = "C19"
 LEVEL = "exploration"
 SHARDS = {"quick": 8, "thorough": 16}
-RULE = ("token leg (every case runs against the NetHome Plus model cloud or against a model of the MSmartHome proxy API: JSON body, HMAC-SHA256 sign header over iot key + body + random, password and iampwd derivations, access-token header; optionally 2..5 further get_token calls for other ids run concurrently on the same cloud object and each must receive its own entry): account/password of printable ASCII (incl. + & = % space) or a built-in region, a 48-bit device id, a token "
+RULE = ("token leg (optionally the session is renewed once or twice on the same object - login(force=True) - and the token asked for again; every case runs against the NetHome Plus model cloud or against a model of the MSmartHome proxy API: JSON body, HMAC-SHA256 sign header over iot key + body + random, password and iampwd derivations, access-token header; optionally 2..5 further get_token calls for other ids run concurrently on the same cloud object and each must receive its own entry): account/password of printable ASCII (incl. + & = % space) or a built-in region, a 48-bit device id, a token "
         "list in which the matching entry is absent / first / middle / last among near-miss ids (prefix, suffix, case-flipped, one "
         "digit off), response field order shuffled, and a fault script per endpoint from {ok, timeout, HTTP 500/404, connect "
         "error, API error code}* up to and beyond the retry budget. Oracle: a model cloud that recomputes the signature from the "
@@ -97,6 +97,18 @@ def check_token(case: dict):
                 res["token_exc"] = e
                 res["other"] = True
             res["others"] = await asyncio.gather(*tasks, return_exceptions=True)
+            for _ in range(case.get("relogin", 0) if not case.get("faults") else 0):
+                # history: the application logs in again on the same object (session renewal: login(force=True)) and asks again
+                if "token_exc" in res:
+                    break
+                try:
+                    await cloud.login(force=True)
+                    again = await cloud.get_token(udpid)
+                    if tuple(again) != tuple(res["token"]):
+                        res["relogin_diff"] = again
+                except BaseException as e:
+                    res["relogin_exc"] = e
+                    break
 
     vloop.run(main)
     if "ctor" in res:
@@ -107,11 +119,16 @@ def check_token(case: dict):
     if mc.errors:
         return ("contract/" + mc.errors[0].split(":")[0].split("/")[-1] + "/" + mc.errors[0].split(": ")[1].split()[0],
                 f"model cloud rejected a request: {mc.errors[:3]}")
+    if "relogin_exc" in res:
+        return (f"relogin/{type(res['relogin_exc']).__name__}", f"login(force=True) + get_token after a successful session failed: {res['relogin_exc']!r}")
+    if "relogin_diff" in res:
+        return ("relogin/token", f"get_token after login(force=True) returned {res['relogin_diff']} instead of {res.get('token')}")
     for u, r in zip(others, res.get("others", [])):
         if isinstance(r, BaseException) or tuple(r) != creds_for(u):
             return ("token/concurrent", f"a concurrent get_token({u}) on the same cloud object gave {r!r}")
+    relog = case.get("relogin", 0) if (not case.get("faults") and "token_exc" not in res and res.get("login") == "ok") else 0
     for path, n in mc.posts.items():
-        if n > 3 + (len(others) if path.endswith("getToken") else 0):
+        if n > 3 + relog + (len(others) if path.endswith("getToken") else 0):
             return ("retries", f"{n} POSTs of {path}")
     # expected outcome per endpoint from the fault scripts
     def outcome(path):
@@ -131,6 +148,10 @@ def check_token(case: dict):
         seen = mc.posts.get(LOGIN if path == "/v1/user/login" else path, 0)
         if path.endswith("getToken"):
             seen -= len(others)
+        if relog and path.endswith("id/get"):
+            seen = n if seen in (n, n + relog) else seen      # (a renewal may or may not ask for a new login id)
+        else:
+            seen -= relog       # (each renewal of the session posts once more to the login and token endpoints)
         if o != "ok":
             exc = res.get("login") if key == "login" else res.get("token_exc")
             if not isinstance(exc, CloudError):
@@ -291,7 +312,7 @@ def run(ctx) -> None:
         "tokenlist": st.one_of(st.none(), st.lists(entry, max_size=6)),
         "faults": st.one_of(st.just({}), faults),
     }, optional={"account": text, "password": text, "region": st.sampled_from(["US", "DE", "KR"]), "cloud": st.sampled_from(["nethome", "smarthome"]),
-                 "concurrent": st.sampled_from([0, 2, 4]), "latency": st.sampled_from([0.05, 0.05, 0.45, 1.3])}).map(
+                 "concurrent": st.sampled_from([0, 2, 4]), "latency": st.sampled_from([0.05, 0.05, 0.45, 1.3]), "relogin": st.sampled_from([0, 0, 1, 2])}).map(
         lambda c: c if ("account" in c) == ("password" in c) else {k: v for k, v in c.items() if k not in ("account", "password")})
     # both cloud flavours x regions x concurrency, no faults
     q = 0
@@ -302,7 +323,7 @@ def run(ctx) -> None:
                     q += 1
                     if ctx.mine(q):
                         case = {"id": 0x1A2B3C4D5E6F ^ (q * 0x10001), "shuffle": q % 2, "tokenlist": tl, "faults": {}, "region": region, "cloud": cloud, "concurrent": conc,
-                                "latency": [0.05, 0.45, 1.3][q % 3]}
+                                "latency": [0.05, 0.45, 1.3][q % 3], "relogin": q % 3}
                         ctx.check(case, lambda c: _run_one(ctx, c))
     ctx.sweep("cloud flavour x region x concurrent requests x token list shapes", q, True)
     # every sequence of up to 4 faults from {timeout, 503, 502 with a gateway JSON body, 500 with a success-shaped JSON body, ok} on each endpoint: attempts never exceed the budget
